@@ -32,7 +32,7 @@ def _cos(limit):
     return Fraction(math.cos(limit))
 
 
-def exclusion(env, topo, limit, mode, method):
+def exclusion(env, topo, limit, mode, method, pre_limit=None):
     c = build_case(env, topo)
     spec, b = c.spec, c.built
     internal = c.internal
@@ -59,7 +59,8 @@ def exclusion(env, topo, limit, mode, method):
             env.assume(v > 0)
         kw["initial_condition"] = list(x0)
     build_kw = {} if lim is None else dict(angle_limit=lim)
-    err, warns = solve(c, velocity=vel, build_kw=build_kw, **kw)
+    err, warns = solve(c, velocity=vel, build_kw=build_kw,
+                       pre_build_kw=None if pre_limit is None else dict(angle_limit=LIMITS[pre_limit]), **kw)
     c.vs.restore()
     obs = [Ob("solve-does-not-raise", err is None, note=f"{type(err).__name__}: {err}" if err else None)]
     if err is not None:
@@ -146,6 +147,11 @@ def exclusion(env, topo, limit, mode, method):
 def jobs(tier):
     js = []
     quick = tier == "quick"
+    # an earlier build with a finite limit must not leak into a later default build; four-fold junctions are flagged too
+    js.append(Job("T3-default-after-a-build-with-limit-2third", "c16:exclusion", dict(topo="T3", limit="default", mode="static", method=None, pre_limit="2third"),
+                  budget_s=1500, max_paths=6000, opts=dict(cheap_forks=True), weight=2))
+    js.append(Job("T4-limit=2third-static-default", "c16:exclusion", dict(topo="T4", limit="2third", mode="static", method=None),
+                  budget_s=1500, max_paths=6000, opts=dict(cheap_forks=True), weight=3))
     for topo in (("T3", "K3") if quick else ("T3", "K3", "K4")):
         for limit in (("2third", "default", "inf") if quick else tuple(LIMITS)):
             for mode in (("static",) if quick else ("static", "velocity")):
